@@ -433,11 +433,19 @@ func C03(c *hx.Ctx) {
 				nt = 1
 			}
 			c.Count(1, nt)
-			out, err, p := readXZ(s.data, dc, false, 4096)
+			// "whichever encoder wrote it" - and however the bytes arrive: the window sizes rotate
+			// through plain in-memory sources and short-reading ones (half buffers, 1-3 bytes, one
+			// byte per call, last bytes together with io.EOF); large streams skip the one-byte source
+			mode := []string{"", "half", "small", "dataeof", "one"}[(i+di)%5]
+			if mode == "one" && len(s.data) > 200000 {
+				mode = "half"
+			}
+			bufSize := []int{4096, 70000, 513}[(i+di)%3]
+			out, err, p := readXZMode(s.data, dc, false, bufSize, mode)
 			if p != nil || err != nil || !bytes.Equal(out, s.plain) {
 				c.Violation(map[string]string{"reader": "xz", "kind": "valid-stream-misread", "source": s.name[:3], "rerr": libErrTag(err)},
-					fmt.Sprintf("valid stream %s with ReaderConfig.DictCap=%d: got %d bytes (want %d) err=%v panic=%v", s.name, dc, len(out), len(s.plain), err, p),
-					map[string]any{"stream": s.name, "dictcap": dc, "hex": hexHead(s.data, 2048)})
+					fmt.Sprintf("valid stream %s with ReaderConfig.DictCap=%d (source %q, %d-byte reads): got %d bytes (want %d) err=%v panic=%v", s.name, dc, mode, bufSize, len(out), len(s.plain), err, p),
+					map[string]any{"stream": s.name, "dictcap": dc, "source": mode, "readBuffer": bufSize, "hex": hexHead(s.data, 2048)})
 			}
 		}
 		if i%40 == 0 {
